@@ -40,7 +40,7 @@ ASSUMPTIONS = [
     'in-memory-vs-file entry points are judged only when the written reference reads back (pandas) with the same dtypes and values as the reference frame',
     'float differences are planted on a decimal grid (0.4 or 2 units of the last compared place) so that rounding is unambiguous',
 ]
-REQUIRED_MONITORS = ['inputs:windows_of_one_parent', 'history:precision_then_default', 'inputs:relabelled_index', 'history:same_reference_reused', 'oracle:must-pass', 'oracle:must-fail', 'failure:message_checked', 'inputs:hashed'] + \
+REQUIRED_MONITORS = ['history:rows_and_columns_reordered', 'inputs:windows_of_one_parent', 'history:precision_then_default', 'inputs:relabelled_index', 'history:same_reference_reused', 'oracle:must-pass', 'oracle:must-fail', 'failure:message_checked', 'inputs:hashed'] + \
     ['entry:' + e for e in sorted(set(ENTRIES))] + ['reach:types_match', 'reach:single_col_diffs', 'reach:resolve_option_flag']
 REQUIRED_CLASSES = ['mut=%s' % m for m in sorted(set(MUTS))] + ['mut=key_crosses_condition'] + ['kind=%s' % k for k in KINDS]
 
@@ -297,6 +297,9 @@ def real_opts(o):
                 n = v['k_lt']
                 r[k] = (lambda df, n=n: df['k'] < n)
             continue
+        if isinstance(v, dict) and 'first' in v:
+            r[k] = (lambda df, m=v['first']: list(df)[:m])        # "the first m fields" of whatever frame it is handed
+            continue
         if isinstance(v, dict) and 'fn' in v:
             cols = v['fn']
             r[k] = (lambda df, cols=cols: [c for c in cols if c in list(df)])
@@ -497,6 +500,25 @@ def run_shard(ctx):
                 run_case(ctx, {'base': b, 'actual': a, 'mut': {'kind': 'swap_rows', 'rows': [0, 1], 'differing_cols': differing, 'sort_restores': False},
                                'opts': plain, 'entry': rng.choice(['check_dataframe', 'assertDataFramesEqual']),
                                'shared_parent': pspec, 'sequel': 'windows-of-one-parent'})
+        if i % 10 == 2:
+            # the same records in another row order AND another column order, column order not checked, sorting requested as
+            # "all fields" (True) or by a function of the frame: the documented sort keys are the REFERENCE's fields, in its order
+            rng = ctx.rng
+            pspec = gen_case(rng, 0)['base']
+            n1 = pspec['nrows']
+            if n1 >= 3 and len(pspec['cols']) >= 2:
+                order = list(range(n1))
+                rng.shuffle(order)
+                acols = [dict(c, values=[c['values'][t] for t in order]) for c in pspec['cols']]
+                acols = acols[1:] + acols[:1]                    # the unique key column 'k' goes last in the actual frame
+                sb = rng.choice([True, {'first': 1}, {'first': 2}, ['k']])
+                plain = {'check_data': None, 'check_types': None, 'check_order': False, 'type_matching': None, 'sortby': sb,
+                         'condition': None, 'precision': None}
+                run_case(ctx, {'base': pspec, 'actual': {'cols': acols, 'nrows': n1},
+                               'mut': {'kind': 'swap_rows', 'rows': order[:2], 'differing_cols': [c['name'] for c in pspec['cols']], 'sort_restores': True},
+                               'opts': plain, 'entry': rng.choice(['check_dataframe', 'assertDataFramesEqual']),
+                               'sequel': 'rows-and-columns-reordered'})
+                ctx.rec.event('history:rows_and_columns_reordered')
         if i % 10 == 4:
             # history on ONE comparison object: an assertion with an explicit coarse precision, then the same frames
             # with the precision left out - the second verdict must be the default-precision verdict
